@@ -33,3 +33,20 @@ macro "c06_exec" : tactic => `(tactic| simp (disch := omega) only [ok_bind, pure
     show IntTy.i32.signed = true from rfl, show IntTy.i64.signed = true from rfl,
     show IntTy.u8.bits = 8 from rfl, show IntTy.u16.bits = 16 from rfl, show IntTy.u32.bits = 32 from rfl, show IntTy.u64.bits = 64 from rfl,
     show IntTy.i8.bits = 8 from rfl, show IntTy.i16.bits = 16 from rfl, show IntTy.i32.bits = 32 from rfl, show IntTy.i64.bits = 64 from rfl] at *)
+
+open Fcppt Fcppt.C06 in
+/-- range hypotheses (`t.InRange x`) as linear facts, so that `omega` (also as the discharger of `c06_exec`) sees them;
+the type names stay folded (terms like `IntTy.wrap IntTy.u32 a` remain recognisable) -/
+macro "c06_ranges" : tactic => `(tactic| try (simp only [IntTy.InRange, IntTy.lo, IntTy.hi,
+    show IntTy.u8.signed = false from rfl, show IntTy.u16.signed = false from rfl, show IntTy.u32.signed = false from rfl,
+    show IntTy.u64.signed = false from rfl, show IntTy.i8.signed = true from rfl, show IntTy.i16.signed = true from rfl,
+    show IntTy.i32.signed = true from rfl, show IntTy.i64.signed = true from rfl,
+    show IntTy.u8.bits = 8 from rfl, show IntTy.u16.bits = 16 from rfl, show IntTy.u32.bits = 32 from rfl, show IntTy.u64.bits = 64 from rfl,
+    show IntTy.i8.bits = 8 from rfl, show IntTy.i16.bits = 16 from rfl, show IntTy.i32.bits = 32 from rfl, show IntTy.i64.bits = 64 from rfl,
+    Int.reducePow, Int.reduceSub, Int.reduceNeg, Nat.reduceSub, Bool.false_eq_true, if_false, if_true, ite_true, ite_false] at *))
+
+open Fcppt Fcppt.C06 in
+/-- conversions whose operand is provably (by `omega`, from the linear facts in the context) inside the destination's range
+are the identity; nothing else is unfolded -/
+macro "c06_wraps" : tactic => `(tactic| simp (disch := omega) only [CInt.conv,
+    wrap_u8_id, wrap_u16_id, wrap_u32_id, wrap_u64_id, wrap_i8_id, wrap_i16_id, wrap_i32_id, wrap_i64_id])
